@@ -1,5 +1,5 @@
 import sys, random, warnings, itertools
-sys.path.insert(0,'/tmp/lw_small/verif/harness')
+import os; sys.path.insert(0, os.environ.get('VERIF', '/verif') + '/harness')  # val_c09 needs a driver built with Handlers/LwSmall
 import numpy as np
 from fractions import Fraction as F
 from core import run_driver, w_rats, w_rat, fr, w_bool
